@@ -1,0 +1,6 @@
+//go:build !verif
+// +build !verif
+
+package retry
+
+func (a *asyncFifoRetryImpl) verifStopped() bool { return false }
